@@ -720,7 +720,7 @@ fn body(ctx: &mut Ctx) {
         ctx.sample(|| "Sum/Product over sliding windows of the pool (Big and &Big items) and over scalar iterators of each type".to_string());
     }
     // worker 0 owns the sum/product space and therefore sees every form
-    ctx.count("max.forms_instantiated", forms.names.len() as u64);
+    ctx.count_max("max.forms_instantiated", forms.names.len() as u64);
 }
 
 fn main() {
